@@ -33,6 +33,8 @@ Section RunInt.
     match x with
     | AVar i => Some (a i)
     | ACst p q => if (q =? 1)%positive then Some p else None
+    | ANamed Nmaxv => Some (imax s)
+    | ANamed Nminv => Some (imin s)
     | ANamed _ => None
     | ARef i => nth i env None
     end.
